@@ -1413,6 +1413,53 @@ example : fileBlockForKey (fun _ => some 1) (openFile (finishFile (frameBlocks [
       ([1, 2, 3] ++ storeBytes [⟨7, 5, 1, 3, ⟨0, 0, 7⟩, [⟨1, 7, 14⟩], 14⟩] ++ u64enc 3) 2 3)) [8]
     = some ⟨1, 7, 14⟩ := by decide
 
+/-- `Dictionary::term_ord_or_next` and `Dictionary::term_ord` composed down to the BYTES of a whole
+written file with several blocks — footer, index region `fst | written store | fst_len`, FST answer
+(stated contract), `get_block`, byte range of the frame, `read_block`, value block skipped,
+front-coded keys decoded, `decode_up_to_or_next`, ordinal shifted by the block's first ordinal:
+for every sorted map, block length, value codec whose value blocks `skip` drops, and every FST
+meeting the contract on the separators, `term_ord_or_next` on the bytes is the operation of the
+block model (which `C15_ops_refine_term_ord_or_next` ties to the specification) and `term_ord` on
+the bytes IS the specification `termOrd m k`. -/
+theorem C15_file_term_ord {V} (blockLen : Nat) (m : Assoc V) (hs : SortedMap m) (f : FstIndex)
+    (hf : FstContract f) (hkeys : f.keys = (build blockLen m).blocks.map (·.sep))
+    (hmulti : (build blockLen m).single = false)
+    (skip : List UInt8 → List UInt8) (ps : List (List UInt8))
+    (hlen : ps.length = (build blockLen m).blocks.length)
+    (hskip : ∀ (i : Nat) p b, ps[i]? = some p → (build blockLen m).blocks[i]? = some b →
+      skip p = encodeBlockKeys (keys b.entries))
+    (hpsz : ∀ p ∈ ps, p ≠ [] ∧ p.length + 1 < 4294967296)
+    (hok : WriterStoreOk (frameAddrs (keyBlocks (build blockLen m)) ps))
+    (fst : List UInt8) (numTerms version : Nat)
+    (hfst0 : fst.length ≠ 0) (hfst : fst.length < 18446744073709551616)
+    (hdata : (frameBlocks ps).length < 18446744073709551616)
+    (hn : numTerms < 18446744073709551616) (hv : version < 4294967296) (k : Key) :
+    fileTermOrdOrNext f.geFirst skip
+        (openFile (finishFile (frameBlocks ps)
+          (fst ++ storeBytes (writerStore (frameAddrs (keyBlocks (build blockLen m)) ps)) ++ u64enc fst.length)
+          numTerms version)) k
+      = some ((build blockLen m).termOrdOrNext k) ∧
+    fileTermOrd f.geFirst skip
+        (openFile (finishFile (frameBlocks ps)
+          (fst ++ storeBytes (writerStore (frameAddrs (keyBlocks (build blockLen m)) ps)) ++ u64enc fst.length)
+          numTerms version)) k
+      = some (termOrd m k) := by
+  have h1 := file_term_ord_or_next blockLen m hs f hf hkeys hmulti skip ps hlen hskip hpsz hok fst
+    numTerms version hfst0 hfst hdata hn hv k
+  refine ⟨h1, ?_⟩
+  unfold fileTermOrd
+  rw [h1, Option.map_some, ← refine_termOrd blockLen m hs k]
+  congr 1
+  unfold Dict.termOrd Dict.termOrdOrNext
+  cases ((build blockLen m).locateKey k).bind (build blockLen m).blockAt <;> rfl
+
+example : fileTermOrdOrNext (fun _ => some 1) id (openFile (finishFile (frameBlocks [[16, 7], [16, 9]])
+      ([1, 2, 3] ++ storeBytes [⟨7, 5, 1, 3, ⟨0, 0, 7⟩, [⟨1, 7, 14⟩], 14⟩] ++ u64enc 3) 2 3)) [9]
+    = some (.exact 1) ∧
+    fileTermOrd (fun _ => some 1) id (openFile (finishFile (frameBlocks [[16, 7], [16, 9]])
+      ([1, 2, 3] ++ storeBytes [⟨7, 5, 1, 3, ⟨0, 0, 7⟩, [⟨1, 7, 14⟩], 14⟩] ++ u64enc 3) 2 3)) [8]
+    = some none := by decide
+
 /-! ## non-vacuity -/
 
 example : StrictInc [[], [0], [0, 0], [0, 255], [1], [255, 255]] :=
